@@ -351,7 +351,10 @@ def miri_run(features, seed, cases, under_miri):
     tag = features.replace(",", "_") or "default"
     if under_miri:
         env["CARGO_TARGET_DIR"] = os.path.join(BUILD, "t", "miri_" + tag)
-        env["MIRIFLAGS"] = "-Zmiri-disable-isolation"
+        # -Zmiri-deterministic-floats: Miri otherwise adds random rounding errors to float intrinsics whose precision Rust
+        # leaves unspecified (powi/powf ...); the compact parser's fast path calls powi, so the native/Miri comparison of
+        # parsed bits would differ by an ulp for reasons that have nothing to do with the library (DESIGN 21.8)
+        env["MIRIFLAGS"] = "-Zmiri-disable-isolation -Zmiri-deterministic-floats"
         cmd = ["cargo", "+nightly", "miri", "run", "--offline", "-q"]
     else:
         env["CARGO_TARGET_DIR"] = os.path.join(BUILD, "t", "mirinative_" + tag)
